@@ -17,7 +17,7 @@
 From Coq Require Import List ZArith Lia Bool Arith NArith.
 From Coq.Strings Require Import Byte.
 From Muduo Require Import C19_Model C19_Wire C19_WireProofs.
-From Muduo Require Import Base_Bytes Gen_Consts Gen_C18 C10_Model C10_Proofs C18_Model C18_StreamProofs C18_CodecProofs C18_HttpProofs C18_HttpRef C18_Proofs C18_EncModel C18_EncProofs C18_HttpSrvModel C18_HttpSrvProofs C18_GenLink C18_RpcInstance.
+From Muduo Require Import Base_Bytes Gen_Consts Gen_C18 C10_Model C10_Proofs C18_Model C18_StreamProofs C18_CodecProofs C18_HttpProofs C18_HttpRef C18_Proofs C18_EncModel C18_EncProofs C18_LiveProofs C18_HttpSrvModel C18_HttpSrvProofs C18_GenLink C18_RpcInstance.
 Import ListNotations.
 Local Open Scope Z_scope.
 
@@ -278,6 +278,69 @@ Theorem C18_error_abandons_stream :
 Proof. exact error_abandons_stream. Qed.
 Print Assumptions C18_error_abandons_stream.
 
+(* The real codec (no abandoned flag; the loop runs on every delivery) on EVERY stream, streams
+   with an error included, list level: with (ms, er, rest) = the reference decoding of the whole
+   stream, one event list per delivery, concatenated = the messages ms, then - if the stream
+   contains an error x - CErr x once for the delivery that made it detectable and once more for
+   every later delivery ([late_reads] = the number of deliveries that arrive when the stream
+   received before them already contains an error, counted by the reference decoder on prefixes
+   of the stream); what stays unconsumed is rest. *)
+Theorem C18_live_events :
+  forall (msg : Type) (parse : list byte -> option msg) (tag : list byte) (chunks : list (list byte)),
+    let s := concat chunks in
+    let '(ms, er, rest) := ref_decode msg parse tag (S (length s)) s in
+    let '(es, lf) := live_all msg parse tag [] chunks in
+    length es = length chunks /\ lf = rest /\
+    concat es = map CMsg ms ++
+                match er with
+                | Some x => CErr x :: repeat (CErr x) (late_reads msg parse tag [] chunks)
+                | None => []
+                end.
+Proof. exact live_events. Qed.
+Print Assumptions C18_live_events.
+
+Theorem C18_live_defs :
+  forall (msg : Type) (parse : list byte -> option msg) (tag : list byte) l c cs pre s,
+    live_all msg parse tag l [] = ([], l) /\
+    live_all msg parse tag l (c :: cs) =
+      (let '(e1, l1) := live_feed msg parse tag l c in
+       let '(es, lf) := live_all msg parse tag l1 cs in (e1 :: es, lf)) /\
+    live_feed msg parse tag l c =
+      (let '(evs, st) := C18_Model.run (cstep msg parse tag) (S (length (l ++ c))) tt (l ++ c) in (evs, d_buf st)) /\
+    late_reads msg parse tag pre [] = 0%nat /\
+    late_reads msg parse tag pre (c :: cs) =
+      ((match ref_err msg parse tag pre with Some _ => 1 | None => 0 end) + late_reads msg parse tag (pre ++ c) cs)%nat /\
+    ref_err msg parse tag s = snd (fst (ref_decode msg parse tag (S (length s)) s)).
+Proof. exact (fun msg parse tag l c cs pre s => conj eq_refl (conj eq_refl (conj eq_refl (conj eq_refl (conj eq_refl eq_refl))))). Qed.
+Print Assumptions C18_live_defs.
+
+(* The Buffer-level decoder on a connection (every access through Buffer's members, the error
+   callback's shutdown) on EVERY delivery sequence, error streams included - this pins what
+   C18_decoder_over_buffer / C18_error_abandons_stream left open (their [evss] were constrained
+   only while no error had occurred / only by their length): the per-delivery event lists,
+   concatenated, are exactly the reference's messages followed by the error re-reported once per
+   delivery from the one that completed the bad head on; NO CFault (no read outside the readable
+   region, no failed assert) also on error streams; the bad frame is never delivered and nothing of
+   it is consumed (readable = rest); connected iff no error; shutdown() took effect exactly once
+   iff there is an error. *)
+Theorem C18_decoder_over_buffer_full :
+  forall (msg : Type) (parse : list byte -> option msg) (tag : list byte) (chunks : list (list byte)) (n0 : nat),
+    let s := concat chunks in
+    let '(ms, er, rest) := ref_decode msg parse tag (S (length s)) s in
+    exists evss c', deliver_all msg parse tag (conn0 n0) chunks = Ok (evss, c') /\
+      length evss = length chunks /\
+      concat evss = map CMsg ms ++
+                    match er with
+                    | Some x => CErr x :: repeat (CErr x) (late_reads msg parse tag [] chunks)
+                    | None => []
+                    end /\
+      ~ In CFault (concat evss) /\
+      readable (c_in c') = rest /\
+      c_connected c' = (match er with Some _ => false | None => true end) /\
+      c_shutdowns c' = (match er with Some _ => 1 | None => 0 end)%nat.
+Proof. exact decoder_over_buffer_full. Qed.
+Print Assumptions C18_decoder_over_buffer_full.
+
 (* The round trip needs the parser hypothesis only for the messages actually sent. *)
 Theorem C18_roundtrip_on :
   forall (msg : Type) (parse : list byte -> option msg) (ser : msg -> list byte) (tag : list byte)
@@ -529,6 +592,15 @@ Example C18_ex_error_path :
             c_connected c = false /\ c_shutdowns c = 1%nat /\ readable (c_in c) = bad ++ hello.
 Proof. vm_compute. eexists. repeat split. Qed.
 
+(* the same stream as C18_ex_error_path: the reference finds one message and a checksum error;
+   three deliveries, the last two arrive after the error => it is re-reported twice *)
+Example C18_ex_late_reads :
+  let f := encode tagXYZ (raw_ser hello) in
+  let bad := firstn 16 f ++ [x4b] in
+  late_reads _ raw_parse tagXYZ [] [f ++ bad; hello; []] = 2%nat /\
+  ref_err _ raw_parse tagXYZ (f ++ bad) = Some kCheckSumError /\ ref_err _ raw_parse tagXYZ f = None.
+Proof. vm_compute. repeat split. Qed.
+
 Example C18_ex_rpc_sendable : rpc_sendable ex_rpc.
 Proof. exact ex_rpc_sendable. Qed.
 
@@ -628,14 +700,20 @@ Theorem C18_decoder_on_connection :
 Proof. exact L3_decoder_on_connection. Qed.
 Print Assumptions C18_decoder_on_connection.
 
-(* HEADLINE: ProtobufCodecLite::onMessage on a TcpConnection.  Whatever way the kernel splits the
+(* THE DECODER OF THE PROPERTY TEXT on a TcpConnection: this file's codec loop [cstep] WITH the
+   [abandoned] flag of part 1 ([on_message] skips the loop once an error was reported - "the first
+   error, after which the stream is abandoned").  The real ProtobufCodecLite keeps NO such flag
+   (C18_error_abandons_stream); what its callbacks are given on every history, histories after an
+   error included, is C18_codec_live_on_connection below (machine [kl_step]).  The two agree on the
+   messages, the first error and the input buffer; the real codec re-reports the error on every
+   later delivery and shuts the connection down.  Statement: whatever way the kernel splits the
    peer's byte stream into reads, and whatever else happens on the connection in between (sends,
    writable events, shutdown, pausing and resuming reads, functors): the messages - and the first
-   error, if any - the codec's callbacks have been given are the reference decoding [ref_decode]
-   of the byte stream RECEIVED SO FAR; the connection's input buffer holds exactly the reference's
-   unconsumed rest; retrieved ++ buffered = received; abandoned iff an error was reported; the
-   decode loop never runs out of fuel.  (= C01_inbound_stream_trace composed with
-   C18_equals_reference, hence with C18_seg_invariant.) *)
+   error, if any - this decoder reports are the reference decoding [ref_decode] of the byte stream
+   RECEIVED SO FAR; the connection's input buffer holds exactly the reference's unconsumed rest;
+   retrieved ++ buffered = received; abandoned iff an error was reported; the decode loop never runs
+   out of fuel.  (= C01_inbound_stream_trace composed with C18_equals_reference, hence with
+   C18_seg_invariant.) *)
 Theorem C18_codec_on_connection :
   forall (msg : Type) (parse : list byte -> option msg) (tag : list byte) mark wc hw ops k e v,
   forallb kop_wf ops = true ->
@@ -670,7 +748,11 @@ Example C18_link_ex_run : exists k e,
 Proof. exact l3_ex_run. Qed.
 
 (* ---- the HTTP parser as message callback -------------------------------------------------- *)
-(* [D.hstep] is this file's line-at-a-time step, proved equal to the literal parser loop on live
+(* (Again the decoder of the property text: the caller loop "parse; false => 400 and abandon; gotAll
+   => deliver, reset(), again" with the abandoned flag.  The real HttpServer::onMessage - one
+   parseRequest per delivery, no flag, keeps reading after a 400 - is C18_http_server_requests_prefix
+   / finding F-22 above, not this machine.)
+   [D.hstep] is this file's line-at-a-time step, proved equal to the literal parser loop on live
    parser states (C18_http_line_atomic's machinery).  For every history of the connection with
    HttpContext::parseRequest as message callback: events (requests, the 400), parser state,
    abandoned flag and input buffer are those of the literal chunk-fed parser [http_feed_all] on the
@@ -719,11 +801,12 @@ Theorem C18_link_kc_step_def : forall (St Ev : Type) (dstep : St -> list byte ->
 Proof. exact L3_kc_step_def. Qed.
 Print Assumptions C18_link_kc_step_def.
 
-(* HEADLINE over the real Buffer: for every history (any kernel answers to readv - any split, end
-   of file, errors -, any other ops in between) the codec's events are the reference decoding of
-   the byte stream received so far and the readable bytes of inputBuffer_ are the reference's
-   unconsumed rest; and no such history faults (no Buffer precondition is violated by
-   TcpConnection or by the codec's retrieve). *)
+(* The decoder of the property text (abandoned flag, see C18_codec_on_connection) over the real
+   Buffer: for every history (any kernel answers to readv - any split, end of file, errors -, any
+   other ops in between) its events are the reference decoding of the byte stream received so far
+   and the readable bytes of inputBuffer_ are the reference's unconsumed rest; and no such history
+   faults (no Buffer precondition is violated by TcpConnection or by the codec's retrieve).  The
+   real codec (no flag, error callback) over the real Buffer: C18_codec_live_on_real_buffers. *)
 Theorem C18_codec_on_real_buffers :
   forall (msg : Type) (parse : list byte -> option msg) (tag : list byte) mark wc hw ops k e v,
   forallb kcop_wf ops = true ->
@@ -752,3 +835,218 @@ Example C18_link_ex_real_buffers : exists k e,
   forallb kcop_wf l3_kc_ops = true /\ B.readable (ibuf (kc_conn k)) = [] /\
   e = [EvUp; EvMsg 5; EvMsg 14; EvDown].
 Proof. exact l3_ex_real_buffers. Qed.
+
+
+(* ---- the REAL codec as message callback: no abandoned flag, defaultErrorCallback ---------- *)
+(* Link_CodecLive.  State = the connection alone.  [KRead chunk] = EvReadData chunk; the message
+   callback = onMessage's while loop on the whole buffered input ([live_message] = [live_feed] of
+   part 2, run on EVERY delivery); Retrieve of what the loop consumed; if an error was reported,
+   errorCallback_ = defaultErrorCallback = `if (conn && conn->connected()) conn->shutdown()` =
+   Conn_Model's [Shutdown] step (ProtobufCodecLite.cc:58-97, 176-186). *)
+From Muduo Require Import Link_CodecLive.
+Theorem C18_link_kl_step_def :
+  forall (msg : Type) (parse : list byte -> option msg) (tag : list byte) (c : Conn_Model.conn) chunk o b,
+  kl_step msg parse tag c (KRead chunk) =
+    (match Conn_Model.step c (EvReadData chunk) with
+     | Conn_Model.Ok (c1, e1) =>
+         let '(cevs, rest) := live_message msg parse tag (inb c1) in
+         match Conn_Model.step c1 (Conn_Model.Retrieve (length (inb c1) - length rest)) with
+         | Conn_Model.Ok (c2, e2) =>
+             if existsb (Link_CodecLive.is_err msg) cevs then
+               match Conn_Model.step c2 Conn_Model.Shutdown with
+               | Conn_Model.Ok (c3, e3) => Conn_Model.Ok (c3, e1 ++ e2 ++ e3, cevs)
+               | Conn_Model.Rejected => Conn_Model.Rejected
+               | Conn_Model.Fault => Conn_Model.Fault
+               end
+             else Conn_Model.Ok (c2, e1 ++ e2, cevs)
+         | Conn_Model.Rejected => Conn_Model.Rejected
+         | Conn_Model.Fault => Conn_Model.Fault
+         end
+     | Conn_Model.Rejected => Conn_Model.Rejected
+     | Conn_Model.Fault => Conn_Model.Fault
+     end) /\
+  kl_step msg parse tag c (KOp o) =
+    (match Conn_Model.step c o with
+     | Conn_Model.Ok (c', e) => Conn_Model.Ok (c', e, [])
+     | Conn_Model.Rejected => Conn_Model.Rejected
+     | Conn_Model.Fault => Conn_Model.Fault
+     end) /\
+  live_message msg parse tag b =
+    (let '(evs, d) := D.run (D.cstep msg parse tag) (S (length b)) tt b in (evs, D.d_buf d)) /\
+  (forall e, Link_CodecLive.is_err msg e = match e with D.CErr _ => true | _ => false end).
+Proof. exact L3_kl_step_def. Qed.
+Print Assumptions C18_link_kl_step_def.
+
+Theorem C18_link_kl_run_def :
+  forall (msg : Type) (parse : list byte -> option msg) (tag : list byte) (c : Conn_Model.conn) ops,
+  kl_run msg parse tag c ops =
+    (match ops with
+     | [] => Conn_Model.Ok (c, [], [])
+     | o :: rest =>
+         match kl_step msg parse tag c o with
+         | Conn_Model.Ok (c1, e1, v1) =>
+             match kl_run msg parse tag c1 rest with
+             | Conn_Model.Ok (c2, e2, v2) => Conn_Model.Ok (c2, e1 ++ e2, v1 ++ v2)
+             | Conn_Model.Rejected => Conn_Model.Rejected
+             | Conn_Model.Fault => Conn_Model.Fault
+             end
+         | Conn_Model.Rejected => Conn_Model.Rejected
+         | Conn_Model.Fault => Conn_Model.Fault
+         end
+     end).
+Proof. exact L3_kl_run_def. Qed.
+Print Assumptions C18_link_kl_run_def.
+
+(* HEADLINE: the real ProtobufCodecLite::onMessage + defaultErrorCallback on a TcpConnection, EVERY
+   history - any split of the peer's bytes into reads, any other ops in between, before and AFTER
+   an error.  With (ms, er, rest) = [ref_decode] of the byte stream received so far: the events
+   the codec's callbacks were given are the messages ms and then, if the stream contains an error
+   x, CErr x once for the delivery that made the error detectable and once more for EVERY later
+   delivery ([late_reads], C18_live_defs); the input buffer is rest - nothing is consumed from the
+   bad frame on; retrieved ++ buffered = received; after an error the connection has left
+   kConnected for good (the error callback's shutdown()). *)
+Theorem C18_codec_live_on_connection :
+  forall (msg : Type) (parse : list byte -> option msg) (tag : list byte) mark wc hw ops (c : Conn_Model.conn) e v,
+  forallb kop_wf ops = true ->
+  kl_run msg parse tag (Conn_Model.init mark wc hw) ops = Conn_Model.Ok (c, e, v) ->
+  let s := delivered c in
+  s = concat (chunks_of ops) /\
+  Conn_Model.consumed c ++ inb c = s /\
+  (let '(ms, er, rest) := D.ref_decode msg parse tag (S (length s)) s in
+   v = map (@D.CMsg msg) ms ++
+       (match er with
+        | Some x => @D.CErr msg x :: repeat (@D.CErr msg x) (late_reads msg parse tag [] (chunks_of ops))
+        | None => []
+        end) /\
+   inb c = rest /\
+   (match er with Some _ => st c = Disconnecting \/ st c = Disconnected | None => True end)).
+Proof. exact L3_codec_live_on_connection. Qed.
+Print Assumptions C18_codec_live_on_connection.
+
+Theorem C18_link_live_history_is_connection_history :
+  forall (msg : Type) (parse : list byte -> option msg) (tag : list byte) ops (c c' : Conn_Model.conn) e v,
+  kl_run msg parse tag c ops = Conn_Model.Ok (c', e, v) ->
+  Conn_Model.run c (kl_conn_ops msg parse tag c ops) = Conn_Model.Ok (c', e).
+Proof. exact L3_live_history_is_connection_history. Qed.
+Print Assumptions C18_link_live_history_is_connection_history.
+
+Theorem C18_codec_live_no_fault :
+  forall (msg : Type) (parse : list byte -> option msg) (tag : list byte) mark wc hw ops,
+  kl_run msg parse tag (Conn_Model.init mark wc hw) ops <> Conn_Model.Fault.
+Proof. exact L3_codec_live_no_fault. Qed.
+Print Assumptions C18_codec_live_no_fault.
+
+(* the tie to the differential run: the link machine and [deliver_all] (part 2; the machine the
+   `conn` kind of bin/check C18 compares with a real TcpConnection after every delivery, deliveries
+   after an error included) agree on every history *)
+Theorem C18_live_link_is_deliver :
+  forall (msg : Type) (parse : list byte -> option msg) (tag : list byte) mark wc hw ops (c : Conn_Model.conn) e v n0,
+  forallb kop_wf ops = true ->
+  kl_run msg parse tag (Conn_Model.init mark wc hw) ops = Conn_Model.Ok (c, e, v) ->
+  exists evss c', deliver_all msg parse tag (conn0 n0) (chunks_of ops) = C10_Model.Ok (evss, c') /\
+    v = concat evss /\ inb c = C10_Model.readable (c_in c') /\
+    (c_connected c' = false -> st c = Disconnecting \/ st c = Disconnected).
+Proof. exact L3_live_link_is_deliver. Qed.
+Print Assumptions C18_live_link_is_deliver.
+
+(* over the two concrete Buffers (L1) *)
+Theorem C18_link_kcl_step_def :
+  forall (msg : Type) (parse : list byte -> option msg) (tag : list byte) c kr o,
+  kcl_step msg parse tag c (KCRead kr) =
+    (match c_step c (CRead kr) with
+     | Conn_Model.Ok (c1, e1) =>
+         if 0 <? length (B.delivered (B.readFd_capacity (ibuf c)) kr) then
+           let '(cevs, rest) := live_message msg parse tag (B.readable (ibuf c1)) in
+           match c_step c1 (COp (Conn_Model.Retrieve (B.readableBytes (ibuf c1) - length rest))) with
+           | Conn_Model.Ok (c2, e2) =>
+               if existsb (Link_CodecLive.is_err msg) cevs then
+                 match c_step c2 (COp Conn_Model.Shutdown) with
+                 | Conn_Model.Ok (c3, e3) => Conn_Model.Ok (c3, e1 ++ e2 ++ e3, cevs)
+                 | Conn_Model.Rejected => Conn_Model.Rejected
+                 | Conn_Model.Fault => Conn_Model.Fault
+                 end
+               else Conn_Model.Ok (c2, e1 ++ e2, cevs)
+           | Conn_Model.Rejected => Conn_Model.Rejected
+           | Conn_Model.Fault => Conn_Model.Fault
+           end
+         else Conn_Model.Ok (c1, e1, [])
+     | Conn_Model.Rejected => Conn_Model.Rejected
+     | Conn_Model.Fault => Conn_Model.Fault
+     end) /\
+  kcl_step msg parse tag c (KCOp o) =
+    (match c_step c o with
+     | Conn_Model.Ok (c', e) => Conn_Model.Ok (c', e, [])
+     | Conn_Model.Rejected => Conn_Model.Rejected
+     | Conn_Model.Fault => Conn_Model.Fault
+     end).
+Proof. exact L3_kcl_step_def. Qed.
+Print Assumptions C18_link_kcl_step_def.
+
+Theorem C18_link_delivered_chunks_def :
+  forall (msg : Type) (parse : list byte -> option msg) (tag : list byte) c o rest,
+  delivered_chunks msg parse tag c [] = [] /\
+  delivered_chunks msg parse tag c (o :: rest) =
+    (match klabs_op c o with KRead ch => [ch] | KOp _ => [] end) ++
+    (match kcl_step msg parse tag c o with
+     | Conn_Model.Ok (c', _, _) => delivered_chunks msg parse tag c' rest
+     | _ => []
+     end) /\
+  klabs_op c o =
+    (match o with
+     | KCOp o' => KOp (abs_op c o')
+     | KCRead kr =>
+         if 0 <? length (B.delivered (B.readFd_capacity (ibuf c)) kr)
+         then KRead (B.delivered (B.readFd_capacity (ibuf c)) kr)
+         else KOp (abs_op c (CRead kr))
+     end).
+Proof. exact L3_delivered_chunks_def. Qed.
+Print Assumptions C18_link_delivered_chunks_def.
+
+(* HEADLINE over the real Buffer, every history (any kernel answers to readv, end of file, errors,
+   any other ops in between, before and after a codec error); no such history faults *)
+Theorem C18_codec_live_on_real_buffers :
+  forall (msg : Type) (parse : list byte -> option msg) (tag : list byte) mark wc hw ops c e v,
+  forallb kcop_wf ops = true ->
+  kcl_run msg parse tag (c_init mark wc hw) ops = Conn_Model.Ok (c, e, v) ->
+  let s := delivered (ctl c) in
+  s = concat (delivered_chunks msg parse tag (c_init mark wc hw) ops) /\
+  Conn_Model.consumed (ctl c) ++ B.readable (ibuf c) = s /\
+  (let '(ms, er, rest) := D.ref_decode msg parse tag (S (length s)) s in
+   v = map (@D.CMsg msg) ms ++
+       (match er with
+        | Some x => @D.CErr msg x ::
+                    repeat (@D.CErr msg x)
+                      (late_reads msg parse tag [] (delivered_chunks msg parse tag (c_init mark wc hw) ops))
+        | None => []
+        end) /\
+   B.readable (ibuf c) = rest /\
+   (match er with Some _ => st (ctl c) = Disconnecting \/ st (ctl c) = Disconnected | None => True end)).
+Proof. exact L3_codec_live_on_real_buffers. Qed.
+Print Assumptions C18_codec_live_on_real_buffers.
+
+Theorem C18_codec_live_on_real_buffers_no_fault :
+  forall (msg : Type) (parse : list byte -> option msg) (tag : list byte) mark wc hw ops,
+  forallb kcop_wf ops = true -> kcl_run msg parse tag (c_init mark wc hw) ops <> Conn_Model.Fault.
+Proof. exact L3_codec_live_on_real_buffers_no_fault. Qed.
+Print Assumptions C18_codec_live_on_real_buffers_no_fault.
+
+(* non-vacuity (the history of REVIEW_D): a negative length field, then two more reads: the real
+   codec reports kInvalidLength three times, consumes nothing, the connection is shut down; the
+   decoder of the property text reports it once *)
+Example C18_link_ex_live_error : exists (c : Conn_Model.conn) e,
+  kl_run (list byte) Some l3_tag3 (Conn_Model.init 100 false false) l3_err_ops
+    = Conn_Model.Ok (c, e, [D.CErr D.kInvalidLength; D.CErr D.kInvalidLength; D.CErr D.kInvalidLength]) /\
+  forallb kop_wf l3_err_ops = true /\ inb c = l3_bad ++ [x01; x02] /\ Conn_Model.consumed c = [] /\
+  st c = Disconnecting /\ e = [EvUp; EvMsg 11; EvFin; EvMsg 12; EvMsg 13] /\
+  late_reads (list byte) Some l3_tag3 [] (chunks_of l3_err_ops) = 2 /\
+  (exists k e', k_run unit (D.cevent (list byte)) (D.cstep (list byte) Some l3_tag3)
+                  (mkK (Conn_Model.init 100 false false) tt false false) l3_err_ops
+                = Conn_Model.Ok (k, e', [D.CErr D.kInvalidLength])).
+Proof. exact l3_ex_live_error. Qed.
+
+Example C18_link_ex_live_real_buffers : exists c e,
+  kcl_run (list byte) Some l3_tag3 (c_init 100 false false) l3_kc_err_ops
+    = Conn_Model.Ok (c, e, [D.CErr D.kInvalidLength; D.CErr D.kInvalidLength]) /\
+  forallb kcop_wf l3_kc_err_ops = true /\ B.readable (ibuf c) = l3_bad ++ [x01] /\
+  st (ctl c) = Disconnected.
+Proof. exact l3_ex_live_real_buffers. Qed.
